@@ -1032,7 +1032,7 @@ def is_manifold_contract(prop):
 
 
 # ---- cell::replace_node, an arbitrary iteration of its walk around the old node: the visited face keeps its orientation -------------------------------
-def replace_node_body_contract(prop):
+def replace_node_body_contract(prop, safety=()):
     """the only face whose node triple changes gets exactly 'old id replaced by new id' at the same positions of the triple: the cyclic order
     (winding) of every face is the one it had (hypothesis of the closed-oriented-surface lemma used by the volume / C14; clause of C01)"""
     def pre(C):
@@ -1066,5 +1066,5 @@ def replace_node_body_contract(prop):
         same = z3.And(*[a == b for a, b in zip(ids_n, ids_o)])
         replaced = z3.And(*[a == sub(b) for a, b in zip(ids_n, ids_o)])
         return [('every-face-keeps-its-node-order-up-to-the-replacement', z3.Or(same, replaced))]
-    return Contract('cell::replace_node', prop, pre=pre, post=post, slice_loop=0, safety=set(),
+    return Contract('cell::replace_node', prop, pre=pre, post=post, slice_loop=0, safety=set(safety),
                     name='cell::replace_node::<walk around the old node, loop body: orientation kept>')
